@@ -17,7 +17,13 @@
 // depth-1 outcome class). Thorough adds depth 3: triples of the calls goa accepts in each context
 // (plus their ill-typed variants in the 8 most relevant contexts). Two special families: dangling references (a reference to the
 // never-defined name "zzq" in every position where a design can refer to an attribute, error,
-// scheme or view; alone, and combined with one (quick) or two (thorough) other calls) and
+// scheme or view; alone, and combined with one (quick) or two (thorough) other calls; and, family
+// dkind, the same references with the type they go into - payload, result, error type, the type a
+// Required / view list belongs to, the result type a view is selected from - ranging over a menu
+// of kinds: inline object, user type, result type with views, type / result type / inline object
+// extending another type, object with a Reference, user type + overriding DSL, alias of a user
+// type, and the kinds without attributes: primitive, alias of a primitive, array, map, collection;
+// every template also runs with the dangling name replaced by each existing name as a control) and
 // recursive types (self-referential, thorough: mutually recursive, user and result types,
 // through attributes, arrays, maps, Extend, Reference, OneOf, views, CollectionOf).
 //
@@ -30,7 +36,9 @@
 // dangling family is a violation when the program cannot have replaced the referring construct
 // (always when the template is alone; with companions for list-appending constructs such as
 // Security, Required, Header, Param, view attributes); otherwise when the accepted design still
-// mentions "zzq" anywhere (reflection walk over expr.Root).
+// mentions "zzq" anywhere (reflection walk over expr.Root). Where the type referred into has no
+// attributes (primitive, array, map, ...) a name maps the whole value and is no reference: only
+// the crash / located-error clauses apply there.
 package main
 
 import (
@@ -165,6 +173,9 @@ func run(c *core.Ctx) {
 	c.Assume("an error entry 'locates an expression' when it names an expression (eval.ReportError's ' in <EvalName>' / '(top level)' suffix, or a ValidationErrors entry with a non-empty EvalName) or carries the file:line of the offending call")
 	c.Assume("the argument menu contains the value dsl.ResultType really returns after reporting an error (obtained by calling it with too many arguments at the point of use): a design that keeps using `var RT = ResultType(...)` of a broken definition")
 	c.Assume("dangling-reference clause: the family's programs refer to the name zzq, which no menu contains, so they never define it; acceptance is a violation by itself when no call of the program can replace the referring construct (template alone, or list-appending constructs); otherwise an accepted design 'still refers' to it when a string reachable from expr.Root / expr.GeneratedResultTypes through goa's own struct types contains it (third-party data such as the example generator's word lists is skipped)")
+	c.Assume("View(name) on an attribute / result selects the single view it is rendered with: a later View(other) in the same DSL replaces the selection, so of the values goa keeps under the meta key \"view\" only the last one is a reference")
+	c.Assume("a DSL call without variadic arguments passes a nil slice, as compiled Go code does (reflect.Value.CallSlice with a nil slice), so that `if args == nil` branches of the DSL behave as in a real design")
+	c.Assume("kind dimension: where the type a mapping refers into has no attributes (primitive, alias of a primitive, array, map, collection) a name maps the whole value and is not an attribute reference: those variants are judged by the crash / located-error clauses only; the control programs (dangling name replaced by an existing one) likewise")
 	c.Assume("the worker reaches goa's unexported expr.validated through go:linkname (no overlay); a rename in goa makes the worker fail to link, which is reported as a harness error")
 	c.Assume("depth-2/3 argument vectors are selected from the depth-1 outcomes of the same run (steers enumeration only)")
 
@@ -190,6 +201,7 @@ func run(c *core.Ctx) {
 	c.Note("menu_sizes", h.info.Menus)
 	c.Note("argument_vectors_per_context", vectors)
 	c.Note("dangling_templates", h.info.DanglingTemplates)
+	c.Note("referred_type_kinds", h.info.RefKinds)
 
 	var results []*famResult
 	runFam := func(name, sel string) *famResult {
@@ -214,11 +226,11 @@ func run(c *core.Ctx) {
 		c.HarnessError("cannot write selection: %v", err)
 		return
 	}
-	fams := []string{"dangling1", "rec1", "recref1", "dangling2", "d2"}
-	bounds := "depth 1: complete product (quick menus: two-value variadic tails over the 6 most common values); depth 2: all ordered pairs per context over {first accepted, first ill-typed} vectors; dangling references (every position of name lists) alone and with one accepted companion call before/after; self-recursive types with bodies of 1..2 calls, and extended / referenced from a second type, payload or result with and without same-named attributes"
+	fams := []string{"dangling1", "dkind1", "rec1", "recref1", "dangling2", "dkind2", "d2"}
+	bounds := "depth 1: complete product (quick menus: two-value variadic tails over the 6 most common values); depth 2: all ordered pairs per context over {first accepted, first ill-typed} vectors; dangling references (every position of name lists) alone and with one accepted companion call before/after, each followed at level 1 by its control programs (the dangling name replaced by every existing name); kind of the type referred into (dkind): every template in the variants of its scaffold, level 1 = the referred type over its whole kind menu x the other types of the scaffold over {base, user type, result type}, level 2 (one companion) = one type at a time over its whole kind menu; self-recursive types with bodies of 1..2 calls, and extended / referenced from a second type, payload or result with and without same-named attributes"
 	if c.Thorough() {
-		fams = []string{"dangling1", "rec1", "recref1", "dangling2", "rec2", "recref2", "d2", "d3", "dangling3"}
-		bounds = "depth 1: complete product of the full menus; depth 2: all ordered pairs per context over one vector per distinct depth-1 outcome class (max 8) plus {first accepted, first ill-typed}; depth 3: all ordered triples of the calls goa accepts in every context (in the 8 relevant contexts also of their ill-typed variants); dangling references alone, with one and with two accepted companion calls in every position; self-recursive and mutually recursive type pairs, also extended / referenced from a second type, payload or result"
+		fams = []string{"dangling1", "dkind1", "rec1", "recref1", "dangling2", "dkind2", "rec2", "recref2", "d2", "d3", "dangling3", "dkind3"}
+		bounds = "depth 1: complete product of the full menus; depth 2: all ordered pairs per context over one vector per distinct depth-1 outcome class (max 8) plus {first accepted, first ill-typed}; depth 3: all ordered triples of the calls goa accepts in every context (in the 8 relevant contexts also of their ill-typed variants); dangling references alone (with controls), with one and with two accepted companion calls in every position; kind of the type referred into (dkind): level 1 = full product of the kind menus of payload, result and error type, level 2 = the referred type over its whole menu x the others over {base, user type, result type}, level 3 = one type at a time over its object-like kinds; self-recursive and mutually recursive type pairs, also extended / referenced from a second type, payload or result"
 	}
 	c.Note("bounds", bounds)
 	for _, f := range fams {
@@ -238,6 +250,30 @@ func report(c *core.Ctx, h *harness, results []*famResult) {
 			"process_killed": fr.fatals, "worker_deaths_not_reproduced": fr.fatalsUnconf,
 			"extra_executions_for_minimisation": fr.extra, "slowest_program_ms": fr.slowest, "wall_s": fr.wall, "complete": fr.complete,
 			"violation_signatures": len(fr.viols),
+		}
+		if fr.name == "dangling1" || fr.name == "dkind1" {
+			// program 0 of every block is the dangling reference, the others are its controls
+			// (existing names): a block whose first accepted program is not a control shows that
+			// the rejection of the dangling program proves little there (vacuity indicator only)
+			with, first, none, without := 0, 0, 0, []string{}
+			for b, fa := range fr.firstAcc {
+				switch {
+				case fa > 0:
+					with++
+				case fa == 0:
+					first++ // program 0 itself accepted: a violation (reported), or a type without attributes
+				default:
+					none++
+					if len(without) < 40 {
+						without = append(without, fr.blocks[b].Key)
+					}
+				}
+			}
+			m := perFam[fr.name].(map[string]any)
+			m["blocks_whose_control_is_accepted"] = with
+			m["blocks_whose_program_0_is_accepted"] = first
+			m["blocks_with_nothing_accepted"] = none
+			m["blocks_with_nothing_accepted_first_40"] = without
 		}
 		for k, v := range fr.outcomes {
 			outcomes[k] += v
